@@ -243,7 +243,7 @@ def corr_if(ck: core.Check, drv) -> None:
     cases = pairs + multi
     mism, dist, outcomes = 0, {}, {}
     for module in P.OPSET_MODULES:
-        sub = cases if module == "v17" or ck.thorough else (pairs[::5] + multi[:30])
+        sub = cases if module == "v17" or ck.thorough else (pairs[::8] + multi[:20])
         model = drv.ask_many("C06", [{"k": "if", "T": T, "E": E} for T, E in sub])
         for (T, E), m in zip(sub, model):
             real = IF.real_if(T, E, module)
